@@ -544,7 +544,7 @@ Section Membership.
       rewrite member_rows_single // -?aE ?eqb_eqn ?eqxx ?mul1r //.
       by apply/ssrnat.ltP; exact: ltn_ord.
     - rewrite mxE member_mxE /mem_of member_rows_single // -?aE ?eqb_eqn.
-      + by rewrite (negbTE ba) mulr0 mul0r.
+      + by move: ba; rewrite -val_eqE /= => /negbTE ->; rewrite mulr0 mul0r.
       + by apply/ssrnat.ltP; exact: ltn_ord.
   Qed.
 End Membership.
@@ -564,3 +564,52 @@ Section SingleEnvironment.
     by rewrite (avg_single _ l1 aE).
   Qed.
 End SingleEnvironment.
+
+(* ================================================================== non-vacuity *)
+Section NonVacuity.
+  Variable F : rcfType.
+
+  (* for every data and every alpha > 0 an oracle value satisfying the hypothesis exists *)
+  Theorem rig_oracle_exists d k (Z : 'M[F]_(k, d)) (a : F) :
+    0 < a -> exists P : 'M[F]_d, reg Z a *m P = 1%:M.
+  Proof.
+    move=> a0; exists (invmx (reg Z a)); apply: mulmxV.
+    rewrite -row_free_unit; apply: inj_row_free => v vA.
+    apply/eqP; apply: contraT => v0.
+    by have := reg_pos Z a0 v0; rewrite /qf vA mul0mx mxE ltxx.
+  Qed.
+
+  (* a concrete environment (one feature, one structure, one environment, alpha = 1):
+     X_train = [[1]], sfactor = 1, XX + alpha = 2, Xinv = 1/2, LPR = 2 *)
+  Definition tiny_env : env_mx F :=
+    fun m n x => const_mx (if x == 5%N then 2%:R^-1 else 1).
+
+  Lemma tiny_env_ok :
+    [/\ rig_hyp tiny_env 1 1 1, 0 < e_alpha tiny_env, 0 < sf2 (e_Xtr tiny_env 1 1),
+        row ord0 (e_Xte tiny_env 1 1) != 0
+      & (eval_mx tiny_env (lpr_prog 1 1 1)) ord0 ord0 = 2%:R].
+  Proof.
+    have s1 : sf2 (e_Xtr tiny_env 1 1) = 1.
+      by rewrite /sf2 big_ord1 big_ord1 !mxE /= invr1 mul1r expr1n.
+    have i1 : isf (e_Xtr tiny_env 1 1) = 1 by rewrite /isf s1 sqrtr1 invr1.
+    have av : avg (e_Mtr tiny_env 1 1) = 1%:M.
+      apply/matrixP => i j; rewrite !mxE big_ord1 !mxE /= invr1 mul1r.
+      by rewrite !ord1 eqxx.
+    have Xs : Xstruc 1 1 1 tiny_env = 1%:M.
+      rewrite /Xstruc i1 scale1r av mul1mx; apply/matrixP => i j.
+      by rewrite !mxE /= !ord1 eqxx.
+    have a1 : e_alpha tiny_env = 1 by rewrite /e_alpha mxE.
+    have P2 : e_Xinv tiny_env 1 = (2%:R^-1)%:M.
+      by apply/matrixP => i j; rewrite !mxE /= !ord1 eqxx mulr1n.
+    have A2 : reg (Xstruc 1 1 1 tiny_env) (e_alpha tiny_env) = 2%:R%:M.
+      by rewrite /reg Xs a1 trmx1 mulmx1 -raddfD /= -(natrD _ 1 1).
+    split.
+    - by apply/hypE; rewrite A2 P2 -scalar_mxM divff // pnatr_eq0.
+    - by rewrite a1 ltr01.
+    - by rewrite s1 ltr01.
+    - apply/eqP => /rowP /(_ ord0); rewrite !mxE /= => /eqP.
+      by rewrite oner_eq0.
+    - rewrite lprE /x_env i1 scale1r P2 /qf mul_mx_scalar -scalemxAl mxE.
+      rewrite mxE big_ord1 !mxE /= mulr1 mulr1 invrK //.
+  Qed.
+End NonVacuity.
